@@ -667,6 +667,13 @@ func runC18(cfg Config) {
 				b = append(b, goodbye()...)
 			}
 			b = append(b, goodbye()...)
+			if rng.Intn(2) == 0 {
+				// … and another directory is written in between (what was recorded for the first one is then not the
+				// most recent record any more)
+				b = append(b, fname("m")...)
+				b = append(b, entry(0o040755)...)
+				b = append(b, goodbye()...)
+			}
 			b = append(b, fname(d)...)
 			b = append(b, entry(0o100644)...)
 			b = append(b, payload([]byte("x"))...)
